@@ -13,7 +13,12 @@ mod example_list_f32;
 pub struct JSONArrayOfFloats;
 impl JSONArrayOfFloats {
     pub fn parse_as_list_f64(json : String) -> Result<Vec<f64>, String> {
-        let items = RawUnprocessedJSONArray::split_into_vector_of_strings(json).unwrap();
+        let boxed_items = RawUnprocessedJSONArray::split_into_vector_of_strings(json);
+        if boxed_items.is_err() {
+            let message = boxed_items.err().unwrap();
+            return Err(message);
+        }
+        let items = boxed_items.unwrap();
         let mut list: Vec<f64> = vec![];
         for item in items {
             let boxed_parse = item.parse::<f64>();
@@ -47,7 +52,12 @@ impl JSONArrayOfFloats {
     }
 
     pub fn parse_as_list_f32(json : String) -> Result<Vec<f32>, String> {
-        let items = RawUnprocessedJSONArray::split_into_vector_of_strings(json).unwrap();
+        let boxed_items = RawUnprocessedJSONArray::split_into_vector_of_strings(json);
+        if boxed_items.is_err() {
+            let message = boxed_items.err().unwrap();
+            return Err(message);
+        }
+        let items = boxed_items.unwrap();
         let mut list: Vec<f32> = vec![];
         for item in items {
             let boxed_parse = item.parse::<f32>();
